@@ -7,6 +7,9 @@ baseline = json.load(open('/root/.vp/BASELINE.json'))['cmd'] if os.path.exists('
 SIM = "deterministic simulation with fault injection (seeded schedules over real olric+memberlist+redcon+go-redis in one synctest bubble)"
 NOTE = "Trusts the simulator seams (simnet, simsync, fake clock) and that the mechanical source rewrite preserves olric's semantics; 1 P per run; sampling."
 claimed = {
+ "C14": dict(level="exploration", design="DESIGN.md §8 C14",
+   text="Seeded search: 2-6 raw RESP subscriber connections spread over 1-3 members run scripts of SUBSCRIBE / PSUBSCRIBE / UNSUBSCRIBE / PUNSUBSCRIBE / disconnect over matching, non-matching, overlapping and duplicate channels and patterns while 1-3 publishers send uniquely numbered messages through different members; a reference subscription table (updated at acknowledgements, with invoke/return uncertainty) decides which deliveries are required, allowed and forbidden, checks per-publisher order, the PUBLISH return value, and PUBSUB CHANNELS/NUMSUB/NUMPAT at a quiescent tail.",
+   note=NOTE, technique=SIM + "; reference subscription table over the recorded history"),
  "C16": dict(level="exploration", design="DESIGN.md §8 C16",
    text="All argument vectors of length 0-2 over a 35-token alphabet for 33 command names (public, internal, unknown, mixed case) are enumerated in batches (one batch per run, every batch in every tier); each run adds 200 mutated valid command forms and random byte streams. Every input is written in seeded segments to a simulated connection of a 2-member cluster, followed by a tagged PING on the same connection, fresh connections every 25 inputs, and ordinary traffic on a second connection. A handler panic kills the worker process and a spinning handler gets it killed from outside: both are reported with the offending batch as the replay.",
    note=NOTE + " Input generation decides most of this property; the simulator contributes segmentation, cross-connection interleaving, the liveness probes and the crash/hang observation. The in-bubble member stands in for an olric-server process.", technique=SIM + "; systematic short-vector enumeration + mutation fuzzing with liveness probes"),
